@@ -8,12 +8,15 @@ fn main() {
     println!("cargo:rerun-if-changed=/repo/minicbor/src/verif.rs");
     println!("cargo:rerun-if-changed=/repo/minicbor-io/src/async_reader.rs");
     println!("cargo:rerun-if-changed=/repo/minicbor-io/src/async_writer.rs");
-    println!("cargo:rustc-check-cfg=cfg(have_step_hook, have_io_hook, minicbor_verif)");
+    println!("cargo:rustc-check-cfg=cfg(have_step_hook, have_stack_hook, have_io_hook, minicbor_verif)");
     let lib = fs::read_to_string("/repo/minicbor/src/lib.rs").unwrap_or_default();
     let verif = fs::read_to_string("/repo/minicbor/src/verif.rs").unwrap_or_default();
     let dec = fs::read_to_string("/repo/minicbor/src/decode/decoder.rs").unwrap_or_default();
     if lib.contains("pub mod verif") && verif.contains("pub fn reset") && verif.contains("pub fn steps") && dec.contains("crate::verif::step()") {
         println!("cargo:rustc-cfg=have_step_hook");
+        if verif.contains("pub fn stack_reset") && verif.contains("pub fn stack_low") {
+            println!("cargo:rustc-cfg=have_stack_hook");
+        }
     }
     let r = fs::read_to_string("/repo/minicbor-io/src/async_reader.rs").unwrap_or_default();
     let w = fs::read_to_string("/repo/minicbor-io/src/async_writer.rs").unwrap_or_default();
